@@ -3,9 +3,15 @@
 From DustDDS Require Export Base.Machine KeyHash.KeyModel.
 Open Scope Z_scope.
 
+(* whole stack: write / dispose / unregister of a sample through a real writer, the
+   simulated network (no key hash reaches the reader) and a real reader *)
+Inductive sop : Type := SW | SD | SU.
+
 Inductive KH_op : Type :=
 | OpH (t : ty) (d1 d2 : fields)     (* writer-side handles of two samples of one type *)
-| OpR (t : ty) (d : fields).        (* writer handle and the six reader-side derivations *)
+| OpR (t : ty) (d : fields)         (* writer handle and the six reader-side derivations *)
+| OpS (t : ty) (ops : list (sop * fields)).
+                                    (* per op: DataWriter::lookup_instance, SampleInfo::instance_handle *)
 
 (* a handle as the harness prints it *)
 Inductive hres : Type :=
@@ -29,8 +35,9 @@ Definition hres_eqb (a b : hres) : bool :=
 (* the serialized sample / key is decoded by the XCDR codec (modelled elsewhere: C09).
    This model predicts the reader-side derivations WITHOUT key hash only for sample
    types on which that codec returns the sample it was given; on the real code it does
-   not for MUTABLE structures, multi-dimensional arrays and optional members (finding
-   C11-reader-derivation-codec) *)
+   not for MUTABLE structures and multi-dimensional arrays (finding
+   C11-reader-derivation-codec; FLOAT128 left the class with 0b5427b, optional members
+   with addc370) *)
 Fixpoint codec_ok (t : ty) : bool :=
   match t with
   | TPrim _ => true
@@ -42,33 +49,16 @@ Fixpoint codec_ok (t : ty) : bool :=
 with codec_ok_ms (ms : members) : bool :=
   match ms with
   | MNil => true
-  | MCons _ _ o t r => negb o && codec_ok t && codec_ok_ms r
+  | MCons _ _ _ t r => codec_ok t && codec_ok_ms r
   end.
 Definition codec_in_scope (t : ty) : bool := codec_ok t.
-
-(* the model assumes that a nested DynamicData carries the type its member descriptor
-   declares.  That fails in one situation only: two key-holder members share an id and a
-   structure value ends up paired with the other member's descriptor (the code serializes
-   it with the value's OWN type).  Those cases are left unpredicted (they lie inside the
-   recorded class C11-key-id-collision; the oracle still judges them). *)
-Fixpoint has_struct (t : ty) : bool :=
-  match t with
-  | TStruct _ _ => true
-  | TSeq e _ | TArr e _ => has_struct e
-  | _ => false
-  end.
-Fixpoint any_struct (ms : members) : bool :=
-  match ms with MNil => false | MCons _ _ _ t r => has_struct t || any_struct r end.
-Definition model_in_scope (t : ty) : bool := key_ids_unique t || negb (any_struct (kh_type t)).
 
 Definition KH_run (o : KH_op) : list (option hres) :=
   match o with
   | OpH t d1 d2 =>
-      if model_in_scope t
-      then [Some (hres_of (instance_handle t d1)); Some (hres_of (instance_handle t d2))]
-      else [None; None]
+      [Some (hres_of (instance_handle t d1)); Some (hres_of (instance_handle t d2))]
   | OpR t d =>
-    if negb (model_in_scope t) then [None; None; None; None; None; None; None] else
+
       let w := hres_of (instance_handle t d) in
       match w with
       | H _ =>
@@ -80,6 +70,13 @@ Definition KH_run (o : KH_op) : list (option hres) :=
       | _ => (* write/dispose fail before any change is handed to the transport *)
           [Some w; Some w; Some w; Some w; Some w; Some w; Some w]
       end
+  | OpS t ops =>
+      flat_map (fun od : sop * fields =>
+        let w := hres_of (instance_handle t (snd od)) in
+        match w with
+        | H _ => [Some w; if codec_in_scope t then Some w else None]
+        | _ => [Some w; Some w]     (* the writer refuses: nothing is sent, nothing is taken *)
+        end) ops
   end.
 
 Fixpoint outs_agree (m : list (option hres)) (o : list hres) : bool :=
@@ -105,6 +102,21 @@ Definition C11_model_ok := KH_model_ok.
 Fixpoint all_eq (h : hres) (l : list hres) : bool :=
   match l with [] => true | x :: r => hres_eqb h x && all_eq h r end.
 
+Fixpoint pair_up (l : list hres) : option (list (hres * hres)) :=
+  match l with
+  | [] => Some []
+  | w :: r :: rest => match pair_up rest with Some p => Some ((w, r) :: p) | None => None end
+  | _ => None
+  end.
+
+Fixpoint reader_iff (t : ty) (l : list (fields * hres)) : bool :=
+  match l with
+  | [] => true
+  | (d, r) :: rest =>
+      forallb (fun dr : fields * hres => Bool.eqb (keys_eqb t d (fst dr)) (hres_eqb r (snd dr))) rest
+      && reader_iff t rest
+  end.
+
 (* same handle iff same key; writer and every reader derivation agree *)
 Definition C11_oracle_ok (c : KH_case) : bool :=
   match c_op c, c_out c with
@@ -115,18 +127,30 @@ Definition C11_oracle_ok (c : KH_case) : bool :=
       else true
   | OpR t d, w :: rest =>
       if case_wf t d then is_handle w && all_eq w rest else all_eq w (skipn 4 rest)
+  | OpS t ops, outs =>
+      match pair_up outs with
+      | Some wr =>
+          (length wr =? length ops)%nat &&
+          (if forallb (fun od : sop * fields => case_wf t (snd od)) ops then
+             (* the reader assigns the writer's handle ... *)
+             forallb (fun p : hres * hres => is_handle (fst p) && hres_eqb (fst p) (snd p)) wr &&
+             (* ... hence, on the reader too, same handle <-> same key *)
+             reader_iff t (combine (map snd ops) (map snd wr))
+           else true)
+      | None => false
+      end
   | _, _ => false
   end.
 
-(* class 1: two members of the flattened key holder share a member id
-            (finding C11-key-id-collision)
+(* class 1: (was: two members of the flattened key holder share a member id, finding
+            C11-key-id-collision; fixed by c1628d5, the class is empty: key_ids_unique_always)
    class 2: sample or key travelling without key hash, sample type outside the
             fragment on which the XCDR codec round-trips (finding C11-reader-derivation-codec) *)
 Definition C11_known (c : KH_case) : N :=
   match c_op c with
   | OpH t _ _ => if key_ids_unique t then 0%N else 1%N
-  | OpR t _ => if negb (key_ids_unique t) then 1%N
-               else if negb (codec_in_scope t) then 2%N else 0%N
+  | OpR t _ | OpS t _ => if negb (key_ids_unique t) then 1%N
+                         else if negb (codec_in_scope t) then 2%N else 0%N
   end.
 
 (* ------------------------------------------------------------------ C12 *)
@@ -140,6 +164,12 @@ Definition C12_oracle_ok (c : KH_case) : bool :=
   match c_op c, c_out c with
   | OpH t d1 d2, [h1; h2] => spec_ok t d1 h1 && spec_ok t d2 h2
   | OpR t d, w :: _ => spec_ok t d w
+  | OpS t ops, outs =>
+      match pair_up outs with
+      | Some wr => forallb (fun x : (sop * fields) * (hres * hres) => spec_ok t (snd (fst x)) (fst (snd x)))
+                     (combine ops wr)
+      | None => false
+      end
   | _, _ => false
   end.
 
@@ -149,4 +179,5 @@ Definition C12_known (c : KH_case) : N :=
   match c_op c with
   | OpH t d1 d2 => if short_of_long t d1 || short_of_long t d2 then 1%N else 0%N
   | OpR t d => if short_of_long t d then 1%N else 0%N
+  | OpS t ops => if existsb (fun od : sop * fields => short_of_long t (snd od)) ops then 1%N else 0%N
   end.
